@@ -24,6 +24,9 @@ type Reader struct {
 	Prefixes  [][]byte
 	PrefixDen int
 	Reads     int
+	// Override, if set, may supply the bytes of a Read itself (returning
+	// true): the harness steering one particular draw, e.g. a DH exponent.
+	Override func(p []byte) bool
 }
 
 // New returns a fault-free reader.
@@ -33,6 +36,9 @@ func (r *Reader) Read(p []byte) (int, error) {
 	r.Reads++
 	if len(p) == 0 {
 		return 0, nil
+	}
+	if r.Override != nil && r.Override(p) {
+		return len(p), nil
 	}
 	if r.ErrDen > 0 && r.T.Coin(simrt.Rand, 1, r.ErrDen) {
 		simrt.FaultFired("entropy-error", "")
